@@ -84,6 +84,8 @@ for _n, _b in [
     ("TypeError", "Exception"), ("RuntimeError", "Exception"), ("NotImplementedError", "RuntimeError"),
     ("LookupError", "Exception"), ("KeyError", "LookupError"), ("IndexError", "LookupError"),
     ("AttributeError", "Exception"), ("AssertionError", "Exception"), ("StopIteration", "Exception"),
+    ("ArithmeticError", "Exception"), ("ZeroDivisionError", "ArithmeticError"), ("OverflowError", "ArithmeticError"),
+    ("UnicodeError", "ValueError"), ("OSError", "Exception"), ("ImportError", "Exception"), ("ModuleNotFoundError", "ImportError"),
     ("InvalidVersion", "ValueError"), ("PkgInvalidSpecifier", "ValueError"),
 ]:
     EXC[_n] = External(_n, (EXC[_b],) if _b else ())
@@ -585,7 +587,22 @@ class Interp:
             return
         if t is ast.AugAssign:
             cur = self.eval(ast.Name(id=st.target.id, ctx=ast.Load()), env, m) if isinstance(st.target, ast.Name) else self.eval(st.target, env, m)
-            v = self.binop(st.op, cur, self.eval(st.value, env, m))
+            rhs = self.eval(st.value, env, m)
+            if isinstance(cur, list) and isinstance(st.op, ast.Add):
+                cur.extend(self.iterate(rhs))        # list.__iadd__ mutates in place (aliases observe it)
+                v = cur
+            elif isinstance(cur, list) and isinstance(st.op, ast.Mult):
+                cur[:] = cur * rhs
+                v = cur
+            elif isinstance(cur, (set, ASet)) and isinstance(st.op, (ast.BitOr, ast.BitAnd, ast.Sub)):
+                res = self.binop(st.op, cur, rhs)
+                if isinstance(cur, ASet):
+                    cur.items = list(self.iterate(res))
+                    v = cur
+                else:
+                    v = res
+            else:
+                v = self.binop(st.op, cur, rhs)
             self.assign(st.target, v, env, m)
             return
         if t is ast.Expr:
@@ -972,6 +989,12 @@ class Interp:
             if nm is None or not isinstance(a, (ASet, set, frozenset)) or not isinstance(b, (ASet, set, frozenset)):
                 raise PyRaise(BuiltinExcValue(EXC["TypeError"], ("set operator",)))
             return self.setmethod(a, nm, [b])
+        try:
+            return self._native_binop(t, a, b)
+        except self._NATIVE_EXC as e:
+            self._reraise_native(e)
+
+    def _native_binop(self, t, a, b):
         if t is ast.Add:
             return a + b
         if t is ast.Sub:
@@ -1285,7 +1308,12 @@ class Interp:
                 raise AnalysisError(f"call of opaque external {f.name}")
             return h(*args, **kwargs)
         if callable(f):
-            return f(*args, **kwargs)
+            try:
+                return f(*args, **kwargs)
+            except self._NATIVE_EXC as e:
+                if isinstance(e, (PyRaise,)):
+                    raise
+                self._reraise_native(e)
         raise AnalysisError(f"call of {f!r}")
 
     def call_func(self, func, args, kwargs):
@@ -1380,7 +1408,22 @@ class Interp:
             raise PyRaise(BuiltinExcValue(EXC["TypeError"], ("ctor args", cls.name)))
         return obj
 
+    _NATIVE_EXC = (ValueError, KeyError, IndexError, TypeError, AttributeError, ZeroDivisionError, OverflowError)
+
+    def _reraise_native(self, e):
+        name = type(e).__name__
+        cls = EXC.get(name) or EXC["Exception"]
+        raise PyRaise(BuiltinExcValue(cls, tuple(str(a) for a in e.args)))
+
     def pymethod(self, obj, name, args, kwargs):
+        if any(isinstance(a, (AObj, VTok, Sym)) for a in args) and isinstance(obj, str) and name != "join":
+            raise AnalysisError(f"str.{name} applied to an abstract value")
+        try:
+            return self._pymethod(obj, name, args, kwargs)
+        except self._NATIVE_EXC as e:
+            self._reraise_native(e)
+
+    def _pymethod(self, obj, name, args, kwargs):
         if isinstance(obj, list) and name in ("append", "extend", "insert", "pop", "index", "count", "copy"):
             if name == "extend":
                 obj.extend(self.iterate(args[0]))
